@@ -24,8 +24,9 @@ func expectModel(md *Model) func(k string, d *durable) []allowedVal {
 // c07ExecNode: layout history, everything flushed, then (if the last letter is
 // a GC) the pass runs with the mutation log on and every crash state of the
 // pass is recovered and compared with the pre-GC model.
-func c07ExecNode(x *XSpec, hist []Op, wantDump bool) HistOutcome {
+func c07ExecNode(x *XSpec, hist0 []Op, wantDump bool) HistOutcome {
 	var out HistOutcome
+	hist := append(append([]Op{}, x.Prefix...), hist0...)
 	var log []vos.Mut
 	var base *vos.FS
 	var pre *Model
@@ -66,6 +67,9 @@ func c07ExecNode(x *XSpec, hist []Op, wantDump bool) HistOutcome {
 	})
 	out.absorb(res, len(hist))
 	out.Next = nextOps
+	if out.MM != nil {
+		out.MM.Op = "after prefix [" + HistString(x.Prefix) + "] " + out.MM.Op
+	}
 	if out.MM != nil || !isGC {
 		return out
 	}
@@ -128,15 +132,25 @@ func c07Specs(tier string) []*XSpec {
 			if c.DataFileMax > 512 {
 				al, ks = append(perKey(keys4, Op{K: "set", V: "s"}), rs...), keys4
 			}
-			base := pr
-			pr = func(hist []Op, op Op) bool { return base(hist, op) || symmetricKeys(ks, hist, op) }
 		}
-		return &XSpec{Property: "C07", Name: fmt.Sprintf("%s-L%d", c.Name, L), Cfg: c, Alphabet: al, Depth: L + 2, Keys: ks, ExecNode: c07ExecNode, Prune: pr}
+		x := &XSpec{Property: "C07", Name: fmt.Sprintf("%s-L%d", c.Name, L), Cfg: c, Alphabet: al, Depth: L + 2, Keys: ks, ExecNode: c07ExecNode}
+		base := pr
+		sym := c.BodyMax < 300
+		x.Prune = func(hist []Op, op Op) bool {
+			return base(hist, op) || (sym && symmetricKeys(ks, append(append([]Op{}, x.Prefix...), hist...), op))
+		}
+		return x
 	}
+	// start from a non-initial state: file 0 already holds two records of one key (a short, "not full" file left by an
+	// earlier process), then every layout of 6 more letters: this is where a pass starts appending to an earlier file and
+	// switches onto the file it is reading
+	sw := mk(cfgGC3(), 6)
+	sw.Name += "-after-2-records"
+	sw.Prefix = []Op{{K: "set", V: "s", Key: "a"}, {K: "set", V: "s", Key: "a"}, {K: "restart", A: []int{0}}}
 	if tier == "quick" {
 		return []*XSpec{mk(cfgGC1(), 3), mk(cfgGC2(), 4)}
 	}
-	return []*XSpec{mk(cfgGC1(), 4), mk(cfgGC2(), 6), mk(cfgGC3(), 9)}
+	return []*XSpec{mk(cfgGC1(), 4), mk(cfgGC2(), 6), sw, mk(cfgGC3(), 9)}
 }
 
 func C07(job *Job, r *Report) {
